@@ -11,14 +11,23 @@ import semcheck
 
 
 def load_corpus(prop):
+    """directed programs with a hand-computed result: {"src": text} for one file, or {"files": {name: text}} with main.tsh"""
     d = os.path.join(common.VERIF, "corpus", prop)
     out = []
     if os.path.isdir(d):
         for f in sorted(os.listdir(d)):
             if f.endswith(".json"):
                 j = json.load(open(os.path.join(d, f)))
+                if "files" in j:
+                    j["src"] = "\n".join("// file %s\n%s" % kv for kv in j["files"].items())
                 out.append((f, j))
     return out
+
+
+def corpus_files(j):
+    if "files" in j:
+        return {k: v.encode() for k, v in j["files"].items()}
+    return {"main.tsh": j["src"].encode()}
 
 
 def shrink_case(b, c, still_fails):
@@ -70,7 +79,7 @@ def run_semantic(res, b, tier, seed, prop, make_cfgs, transform=None, n_quick=40
     kinds = {}
     # corpus first
     for name, j in load_corpus(prop):
-        c = pipeline.Case("corpus-" + name, {"main.tsh": j["src"].encode()},
+        c = pipeline.Case("corpus-" + name, corpus_files(j),
                           meta=dict(expected_out=j["stdout"], expected_status=j["status"], src=j["src"], corpus=name))
         cases.append(c)
     total_w = sum(w for w, _ in cfgs)
